@@ -243,6 +243,16 @@ func driverEll(c *Ctx) {
 				delete(counts, "...[1]")
 			}
 		}
+		if i%8 == 5 {
+			// a fill that is refused while a repeated group is being expanded, right before: nothing of it may be left
+			// behind for the next call (a name of the generated shape inside the group, at either nesting level)
+			for _, bad := range []ast.ItemNode{
+				ast.NewListNode(ast.NewListNode(ast.NewUintNode(1, "pt"), "...[0]", ast.NewUintNode(1, "pt[0]")), "...[1]"),
+				ast.NewListNode(ast.NewUintNode(1, "q"), ast.NewListNode(ast.NewListNode(ast.NewBooleanNode("r"), "...[0]", ast.NewIntNode(2, "r[1]")), "...[1]"), "...[2]"),
+			} {
+				try(func() { bad.FillVariables(map[string]interface{}{"...[0]": 1, "...[1]": 1, "...[2]": 2}) })
+			}
+		}
 		c.emit(i, ellEvent(g, t.Build(), counts))
 		c.count("ell.cases")
 	}
